@@ -58,7 +58,7 @@ def feed(ctx, s, case_kind):
     except MonitorViolation as v:
         ctx.violation(v.monitor, v.witness, {"kind": "string", "string": s, "gen": case_kind}, v.prop)
         return "violation"
-    except pp.TucanParserException:
+    except monitors.parser_exception_type():
         return "rejected"
     # any other exception escapes the wrapper only if the monitor is off
 
